@@ -293,4 +293,230 @@ theorem filterBlock_trace (c : Ctx) (s s' : Store) (ready : List Wid) (b : Block
             obtain ⟨q1, q2⟩ := putSyncedTo_pend _ _ _ hp
             exact ⟨recs, s1, rfl, hsub, applyRelevant_trace c s s1 ready _ recs ha hno hnd, q1, q2⟩
 
+-- ------------------------------------------------------------------ GOAL 2: the structural trace of a notification
+
+/-- reached by disconnecting blocks (any heights) -/
+inductive DReach (c : Ctx) : Store → Store → Prop
+  | refl {s : Store} : DReach c s s
+  | step {s s1 s' : Store} (h : Nat) : disconnectBlock c s h = .ok s1 → DReach c s1 s' → DReach c s s'
+
+/-- reached by connecting blocks with the ready set `ready` -/
+inductive CReach (c : Ctx) (ready : List Wid) : Store → Store → Prop
+  | refl {s : Store} : CReach c ready s s
+  | step {s s1 s' : Store} (b : Block) (conf : List TxId) : filterBlock c s ready b = .ok (s1, conf) →
+      CReach c ready s1 s' → CReach c ready s s'
+
+/-- reflexive-transitive closure of the follower's block-level steps: disconnect a block (any height),
+    connect a block (any block, any ready set) -/
+inductive BReach (c : Ctx) : Store → Store → Prop
+  | refl {s : Store} : BReach c s s
+  | disc {s s1 s' : Store} (h : Nat) : disconnectBlock c s h = .ok s1 → BReach c s1 s' → BReach c s s'
+  | conn {s s1 s' : Store} (ready : List Wid) (b : Block) (conf : List TxId) :
+      filterBlock c s ready b = .ok (s1, conf) → BReach c s1 s' → BReach c s s'
+
+theorem DReach.trans {c : Ctx} {s s' s'' : Store} (h : DReach c s s') (h' : DReach c s' s'') : DReach c s s'' := by
+  induction h with
+  | refl => exact h'
+  | step n hd _ ih => exact DReach.step n hd (ih h')
+
+theorem DReach.snoc {c : Ctx} {s s' s'' : Store} (h : DReach c s s') (n : Nat)
+    (hd : disconnectBlock c s' n = .ok s'') : DReach c s s'' := h.trans (DReach.step n hd DReach.refl)
+
+theorem BReach.trans {c : Ctx} {s s' s'' : Store} (h : BReach c s s') (h' : BReach c s' s'') : BReach c s s'' := by
+  induction h with
+  | refl => exact h'
+  | disc n hd _ ih => exact BReach.disc n hd (ih h')
+  | conn r b cf hf _ ih => exact BReach.conn r b cf hf (ih h')
+
+theorem DReach.toB {c : Ctx} {s s' : Store} (h : DReach c s s') : BReach c s s' := by
+  induction h with
+  | refl => exact BReach.refl
+  | step n hd _ ih => exact BReach.disc n hd ih
+
+theorem CReach.toB {c : Ctx} {ready : List Wid} {s s' : Store} (h : CReach c ready s s') : BReach c s s' := by
+  induction h with
+  | refl => exact BReach.refl
+  | step b cf hf _ ih => exact BReach.conn ready b cf hf ih
+
+theorem disconnectDown_reach (c : Ctx) (nbH : Nat) :
+    ∀ (fuel : Nat) (s : Store) (curH : Nat) (rolled : List Nat) (r : Store × Nat × List Nat),
+      disconnectDown c nbH fuel s curH rolled = .ok r → DReach c s r.1 := by
+  intro fuel
+  induction fuel with
+  | zero =>
+    intro s curH rolled r h
+    simp only [disconnectDown, pure, Except.pure, Except.ok.injEq] at h
+    rw [← h]; exact DReach.refl
+  | succ fuel ih =>
+    intro s curH rolled r h
+    simp only [disconnectDown] at h
+    split at h
+    · simp only [bind, Except.bind] at h
+      cases hd : disconnectBlock c s curH with
+      | error e => rw [hd] at h; cases h
+      | ok s1 =>
+        rw [hd] at h
+        exact DReach.step curH hd (ih _ _ _ _ h)
+    · simp only [pure, Except.pure, Except.ok.injEq] at h
+      rw [← h]; exact DReach.refl
+
+theorem walkBack_reach (c : Ctx) :
+    ∀ (fuel : Nat) (w w' : Walk) (d : Bool), walkBack c fuel w = .ok (w', d) → DReach c w.s w'.s := by
+  intro fuel
+  induction fuel with
+  | zero =>
+    intro w w' d h
+    simp only [walkBack, pure, Except.pure, Except.ok.injEq, Prod.mk.injEq] at h
+    rw [← h.1]; exact DReach.refl
+  | succ fuel ih =>
+    intro w w' d h
+    simp only [walkBack] at h
+    split at h
+    · simp only [bind, Except.bind, throw, throwThe, MonadExceptOf.throw] at h
+      cases hd : disconnectBlock c w.s (w.prevH + 1) with
+      | error e => rw [hd] at h; cases h
+      | ok s1 =>
+        rw [hd] at h
+        simp only at h
+        split at h
+        · cases h
+        · split at h
+          · cases h
+          · split at h
+            · cases h
+            · exact DReach.step _ hd (ih _ _ _ h)
+    · simp only [pure, Except.pure, Except.ok.injEq, Prod.mk.injEq] at h
+      rw [← h.1]; exact DReach.refl
+
+theorem connectAll_reach (c : Ctx) (ready : List Wid) :
+    ∀ (bs : List Block) (s : Store) (added : List (Nat × List TxId)) (r : Store × List (Nat × List TxId)),
+      connectAll c ready bs s added = .ok r → CReach c ready s r.1 := by
+  intro bs
+  induction bs with
+  | nil =>
+    intro s added r h
+    simp only [connectAll, pure, Except.pure, Except.ok.injEq] at h
+    rw [← h]; exact CReach.refl
+  | cons b rest ih =>
+    intro s added r h
+    simp only [connectAll, bind, Except.bind] at h
+    cases hf : filterBlock c s ready b with
+    | error e => rw [hf] at h; cases h
+    | ok sc =>
+      rw [hf] at h
+      obtain ⟨s1, cf⟩ := sc
+      exact CReach.step b cf hf (ih _ _ _ h)
+
+theorem reorgDisconnect_reach (c : Ctx) (s : Store) (best : BlockMeta) (nb : Block) (tc : List Block)
+    (r : Store × List Nat × List Block) (h : reorgDisconnect c s best nb tc = .ok r) : DReach c s r.1 := by
+  unfold reorgDisconnect at h
+  split at h
+  · simp only [pure, Except.pure, Except.ok.injEq] at h
+    rw [← h]; exact DReach.refl
+  · simp only [bind, Except.bind, throw, throwThe, MonadExceptOf.throw] at h
+    cases hd : disconnectDown c nb.height (best.height + 1) s best.height [] with
+    | error e => rw [hd] at h; cases h
+    | ok r1 =>
+      rw [hd] at h
+      obtain ⟨s1, curH, rolled⟩ := r1
+      have hr1 : DReach c s s1 := disconnectDown_reach c _ _ _ _ _ _ hd
+      simp only at h
+      split at h
+      · cases h
+      · split at h
+        · simp only [pure, Except.pure, Except.ok.injEq] at h
+          rw [← h]; exact hr1
+        · split at h
+          · cases h
+          · split at h
+            · cases h
+            · rename_i ph hph
+              cases hw : walkBack c (best.height + 2)
+                  { s := s1, prevH := curH - 1, prevHash := ph, tail := nb, tc := tc, rolled := rolled } with
+              | error e => rw [hw] at h; cases h
+              | ok wd =>
+                rw [hw] at h
+                obtain ⟨w, d⟩ := wd
+                have hr2 : DReach c s1 w.s := walkBack_reach c _ _ _ _ hw
+                simp only at h
+                split at h
+                · cases h
+                · cases hd2 : disconnectBlock c w.s (w.prevH + 1) with
+                  | error e => rw [hd2] at h; cases h
+                  | ok s3 =>
+                    rw [hd2] at h
+                    simp only [pure, Except.pure, Except.ok.injEq] at h
+                    rw [← h]
+                    exact (hr1.trans hr2).snoc _ hd2
+
+theorem reorg_reach (c : Ctx) (s : Store) (best : BlockMeta) (newBest : Block)
+    (r : Store × List Nat × List (Nat × List TxId)) (h : reorg c s best newBest = .ok r) :
+    ∃ sm, DReach c s sm ∧ CReach c (readyWallets sm c.wallets) sm r.1 := by
+  unfold reorg at h
+  simp only [bind, Except.bind] at h
+  cases ha : alignNew c best.height (newBest.height + 1) newBest [] with
+  | error e => rw [ha] at h; cases h
+  | ok a =>
+    rw [ha] at h
+    obtain ⟨nb, tc⟩ := a
+    simp only at h
+    cases hd : reorgDisconnect c s best nb tc with
+    | error e => rw [hd] at h; cases h
+    | ok d =>
+      rw [hd] at h
+      obtain ⟨sm, rolled, tc'⟩ := d
+      simp only at h
+      cases hc : connectAll c (readyWallets sm c.wallets) tc' sm [] with
+      | error e => rw [hc] at h; cases h
+      | ok cr =>
+        rw [hc] at h
+        obtain ⟨s2, added⟩ := cr
+        simp only [pure, Except.pure, Except.ok.injEq] at h
+        rw [← h]
+        exact ⟨sm, reorgDisconnect_reach c s best nb tc _ hd, connectAll_reach c _ _ _ _ _ hc⟩
+
+/-- the database transaction of processConnectedBlock -/
+def processResult (c : Ctx) (s : Store) (v : Vol) (b : Block) : M (Store × List Nat × List (Nat × List TxId)) :=
+  if b.prev = v.best.hash then do
+    let ready := readyWallets s c.wallets
+    let (s', conf) ← filterBlock c s ready b
+    pure (s', [], [(b.height, conf)])
+  else reorg c s v.best b
+
+theorem processBlock_ok (c : Ctx) (s s' : Store) (v v' : Vol) (b : Block)
+    (h : processBlock c s v b = (s', v', true)) : ∃ rolled added, processResult c s v b = .ok (s', rolled, added) := by
+  unfold processBlock at h
+  simp only at h
+  unfold processResult
+  split at h
+  · simp only [Prod.mk.injEq, Bool.false_eq_true, and_false] at h
+  · rename_i s2 rolled added hr
+    simp only [Prod.mk.injEq] at h
+    rw [← h.1]
+    exact ⟨rolled, added, hr⟩
+
+/-- **a successful tip notification = disconnects (down to the fork point), then connects with the ready set
+    read at the fork point** (direct extension: no disconnect, one connect) -/
+theorem processBlock_trace_dc (c : Ctx) (s s' : Store) (v v' : Vol) (b : Block)
+    (h : processBlock c s v b = (s', v', true)) :
+    ∃ sm, DReach c s sm ∧ CReach c (readyWallets sm c.wallets) sm s' := by
+  obtain ⟨rolled, added, hr⟩ := processBlock_ok c s s' v v' b h
+  unfold processResult at hr
+  split at hr
+  · simp only [bind, Except.bind] at hr
+    cases hf : filterBlock c s (readyWallets s c.wallets) b with
+    | error e => rw [hf] at hr; cases hr
+    | ok sc =>
+      rw [hf] at hr
+      obtain ⟨s1, cf⟩ := sc
+      simp only [pure, Except.pure, Except.ok.injEq, Prod.mk.injEq] at hr
+      rw [← hr.1]
+      exact ⟨s, DReach.refl, CReach.step b cf hf CReach.refl⟩
+  · exact reorg_reach c s v.best b _ hr
+
+theorem processBlock_trace (c : Ctx) (s s' : Store) (v v' : Vol) (b : Block)
+    (h : processBlock c s v b = (s', v', true)) : BReach c s s' := by
+  obtain ⟨sm, h1, h2⟩ := processBlock_trace_dc c s s' v v' b h
+  exact h1.toB.trans h2.toB
+
 end MW.Lemmas.PendHist
